@@ -19,6 +19,7 @@ checks = [
  yata("C05", "Tombstone set of every replica must equal ExpectedDead (delivered removals + overridden/non-right-most map entries + subtrees of dead types) in every recorded state; map winners compared across replicas by C01_Converge; public map reads bound to the lists by C17_PubAgrees.", TECH),
  yata("C06", "Every sync step (encode_diff / encode_state_as_update against the receiver's or the empty state vector, v1/v2) is a trace action with Dominates/Reflects/Complete/Monotone/SenderUnchanged and state-vector exactness evaluated by TLC.", TECH),
  yata("C07", "Every replica has two real follower Docs fed by observe_update_v1/v2; TLC compares follower and leader state after every transaction (FollowerEqual) and checks EmitIffChanged.", TECH),
+ yata("C08", "merge_updates (every argument order and nesting shape), diff_updates and encode_state_vector_from_update are trace actions: TLC compares the decoded result with the abstract meaning (union of the merged updates; units at or above the state vector plus all deletions; contiguous prefix) and validates the effect of applying it (C08_MergeExact, C08_DiffExact, C08_SvEq + all C01/C02 predicates on the receiving replica).", TECH),
  yata("C15", "Replicas with GC on and off receive the same histories; convergence is evaluated modulo collected units, collected units must be tombstones (OnlyDeadCollected) and a GC-off replica collects nothing (GcOffKeepsAll); forced GC steps in random schedules.", TECH),
 ]
 # plugin modules (tools/*_pipe.py) may contribute their own entries
